@@ -5,7 +5,7 @@ from vf.common import Harness, dump_image
 LEVEL = "model_checking"
 TECHNIQUE = "CBMC bounded symbolic execution of exec.c / scan.c / scanner.c with engine limits scaled down through the code's own #ifndef macros and configuration stubs; symbolic clock"
 ASSUMPTIONS = ["limits scaled: YR_MAX_STRING_MATCHES=3 (native image build and harness identically), stack size 1..6 via the configuration stub",
-               "the isolation of OTHER strings from a muted one needs a multi-string image, whose symbolic string pointer makes the query run out of memory at 24 GB (probe in DESIGN section 4): claimed only through C05", "timeout claim is in instructions (poll every 100 VM instructions / 4096 scanned bytes), not in seconds",
+               "the isolation of OTHER strings from a muted one needs a multi-string image, whose symbolic string pointer makes the query run out of memory at 24 GB (probe in DESIGN section 4): claimed only through C05", "timeout claim is in instructions (poll every 100 VM instructions / 4096 scanned bytes), not in seconds; programs: NOPs, and 88 NOPs followed by any subset of 4 module-function calls (hash-table lookup and object copy/destroy stubbed)",
                "compile-side limits (loop nesting, strings per rule, include depth, identifier length) live in flex/bison actions and are outside this round"]
 LEVEL_TEXT = "Bounded model checking at L-1, L, L+1 of each scaled limit with all other inputs symbolic."
 LEVEL_NOTE = "; ".join(ASSUMPTIONS)
